@@ -171,7 +171,8 @@ class ZMQEventLoop(EventLoop):
             The condition to monitor on the file (defaults to ``POLLIN``).
         """
         if isinstance(fd, int):
-            fd = os.fdopen(fd)
+            # the descriptor stays the caller's: do not close it when this wrapper is dropped
+            fd = os.fdopen(fd, closefd=False)
         self._poller.register(fd, flags)
         self._queue_callbacks[fd.fileno()] = callback
         return fd
